@@ -416,6 +416,354 @@ func fLockTable(dirs ...string) (rows []fAccess) {
 	return out
 }
 
+
+// ---- construction-time ("frozen") fields -------------------------------------
+//
+// The Prog model treats the lookup tables, the request pool pointer, the list
+// directory of the storage and the engine's sub-engines as IMMUTABLE after
+// construction (Env).  fFieldWriters lists, by go/ast over the current tree,
+// every function of the packages urlfilter, lookup and filterlist that WRITES a
+// field of one of the frozen struct types:
+//
+//	x.f = v, x.f[k] = v, x.f op= v, x.f++ / --, delete(x.f, k), clear(x.f),
+//	writes through a local alias (m := x.f; m[k] = v; delete(m, k)), and the
+//	keyed fields of a composite literal T{f: v} / &T{f: v}
+//
+// together with two flags computed on the (name-based, over-approximating) call
+// graph of these packages:
+//
+//	query  "q" if the function is reachable from a query entry point (an
+//	       exported function or method that is neither a constructor New* nor the
+//	       construction-time API AddRule / TryAdd), "-" otherwise;
+//	ctor   "c" if the function is a constructor New*/new*, or has at least one
+//	       caller and all its callers are "c" (least fixed point), "-" otherwise.
+//
+// RuleStorage.cache is not in this table: it is mutable by design and covered
+// by the lock table above.
+
+var fFrozenTypes = map[string]string{ // type -> package directory ("" = module root)
+	"DNSEngine":           "",
+	"NetworkEngine":       "",
+	"Engine":              "",
+	"CosmeticEngine":      "",
+	"cosmeticLookupTable": "",
+	"ShortcutsTable":      "lookup",
+	"DomainsTable":        "lookup",
+	"SeqScanTable":        "lookup",
+	"RuleStorage":         "filterlist",
+}
+
+// fields of frozen types that are mutable by design (guarded by a lock, see fGuarded)
+var fFrozenExempt = map[string]bool{"RuleStorage.cache": true}
+
+type fWriterRow struct{ fn, field, query, ctor string }
+
+type fFuncInfo struct {
+	name    string // "Type.Method" or "Func"
+	short   string // method or function name alone (what call sites show)
+	decl    *ast.FuncDecl
+	imports map[string]bool
+	calls   map[string]bool // short names of callees
+	writes  map[string]bool // field labels
+}
+
+func fFuncName(fd *ast.FuncDecl) string {
+	if rt := fRecvType(fd); rt != "" {
+		return rt + "." + fd.Name.Name
+	}
+
+	return fd.Name.Name
+}
+
+func fBaseSelector(e ast.Expr) (sel *ast.SelectorExpr, ident *ast.Ident) {
+	for {
+		switch x := e.(type) {
+		case *ast.IndexExpr:
+			e = x.X
+		case *ast.ParenExpr:
+			e = x.X
+		case *ast.StarExpr:
+			e = x.X
+		case *ast.SliceExpr:
+			e = x.X
+		case *ast.SelectorExpr:
+			return x, nil
+		case *ast.Ident:
+			return nil, x
+		default:
+			return nil, nil
+		}
+	}
+}
+
+func fCompositeType(e ast.Expr) string {
+	if u, ok := e.(*ast.UnaryExpr); ok && u.Op == token.AND {
+		e = u.X
+	}
+	cl, ok := e.(*ast.CompositeLit)
+	if !ok || cl.Type == nil {
+		return ""
+	}
+	switch t := cl.Type.(type) {
+	case *ast.Ident:
+		return t.Name
+	case *ast.SelectorExpr:
+		return t.Sel.Name
+	}
+
+	return ""
+}
+
+// fFieldWriters computes the rows, the frozen types found and all their fields.
+func fFieldWriters(repo string) (rows []fWriterRow, typesFound []string, fieldsFound []string) {
+	// 1. struct fields of the frozen types: field name -> owner types
+	owners := map[string][]string{}
+	var funcs []*fFuncInfo
+	dirs := []string{"", "lookup", "filterlist"}
+	for _, dir := range dirs {
+		_, files := fParseDir(filepath.Join(repo, dir))
+		for _, f := range files {
+			imports := map[string]bool{}
+			for _, im := range f.Imports {
+				path := strings.Trim(im.Path.Value, "\"")
+				name := path[strings.LastIndex(path, "/")+1:]
+				if im.Name != nil {
+					name = im.Name.Name
+				}
+				imports[name] = true
+			}
+			for _, d := range f.Decls {
+				switch x := d.(type) {
+				case *ast.GenDecl:
+					for _, sp := range x.Specs {
+						ts, ok := sp.(*ast.TypeSpec)
+						if !ok {
+							continue
+						}
+						st, ok := ts.Type.(*ast.StructType)
+						if pd, frozen := fFrozenTypes[ts.Name.Name]; !ok || !frozen || pd != dir {
+							continue
+						}
+						typesFound = append(typesFound, ts.Name.Name)
+						for _, fl := range st.Fields.List {
+							for _, n := range fl.Names {
+								if fFrozenExempt[ts.Name.Name+"."+n.Name] {
+									continue
+								}
+								owners[n.Name] = append(owners[n.Name], ts.Name.Name)
+								fieldsFound = append(fieldsFound, ts.Name.Name+"."+n.Name)
+							}
+						}
+					}
+				case *ast.FuncDecl:
+					if x.Body != nil {
+						funcs = append(funcs, &fFuncInfo{name: fFuncName(x), short: x.Name.Name, decl: x, imports: imports,
+							calls: map[string]bool{}, writes: map[string]bool{}})
+					}
+				}
+			}
+		}
+	}
+	sort.Strings(typesFound)
+	sort.Strings(fieldsFound)
+	label := func(field, inType string) string {
+		os := owners[field]
+		if len(os) == 0 {
+			return ""
+		}
+		for _, o := range os {
+			if o == inType {
+				return o + "." + field
+			}
+		}
+		cp := append([]string{}, os...)
+		sort.Strings(cp)
+
+		return strings.Join(cp, "/") + "." + field
+	}
+	// 2. writes and calls of every function
+	for _, fi := range funcs {
+		recvT, recvN := fRecvType(fi.decl), fRecvName(fi.decl)
+		alias := map[string]string{} // local identifier -> field label
+		fieldOf := func(e ast.Expr) string {
+			sel, id := fBaseSelector(e)
+			if sel != nil {
+				if x, ok := sel.X.(*ast.Ident); ok {
+					if fi.imports[x.Name] && x.Obj == nil {
+						return "" // pkg.Name
+					}
+					if x.Name == recvN && recvN != "" {
+						return label(sel.Sel.Name, recvT)
+					}
+				}
+
+				return label(sel.Sel.Name, "")
+			}
+			if id != nil {
+				return alias[id.Name]
+			}
+
+			return ""
+		}
+		ast.Inspect(fi.decl.Body, func(n ast.Node) bool {
+			switch x := n.(type) {
+			case *ast.AssignStmt:
+				for i, l := range x.Lhs {
+					if _, isIdent := l.(*ast.Ident); isIdent {
+						// alias: m := x.f (the RHS is exactly a field)
+						if len(x.Rhs) == len(x.Lhs) {
+							if sel, ok := x.Rhs[i].(*ast.SelectorExpr); ok {
+								if lb := fieldOf(sel); lb != "" {
+									alias[l.(*ast.Ident).Name] = lb
+								}
+							}
+						}
+
+						continue
+					}
+					if lb := fieldOf(l); lb != "" {
+						fi.writes[lb] = true
+					}
+				}
+			case *ast.IncDecStmt:
+				if _, isIdent := x.X.(*ast.Ident); !isIdent {
+					if lb := fieldOf(x.X); lb != "" {
+						fi.writes[lb] = true
+					}
+				}
+			case *ast.CallExpr:
+				switch f := x.Fun.(type) {
+				case *ast.Ident:
+					if (f.Name == "delete" || f.Name == "clear") && len(x.Args) > 0 {
+						if lb := fieldOf(x.Args[0]); lb != "" {
+							fi.writes[lb] = true
+						}
+					}
+					fi.calls[f.Name] = true
+				case *ast.SelectorExpr:
+					fi.calls[f.Sel.Name] = true
+				}
+			case *ast.CompositeLit:
+				tn := ""
+				switch t := x.Type.(type) {
+				case *ast.Ident:
+					tn = t.Name
+				case *ast.SelectorExpr:
+					tn = t.Sel.Name
+				}
+				if _, frozen := fFrozenTypes[tn]; frozen {
+					for _, el := range x.Elts {
+						if kv, ok := el.(*ast.KeyValueExpr); ok {
+							if k, ok2 := kv.Key.(*ast.Ident); ok2 {
+								if lb := label(k.Name, tn); lb != "" && !fFrozenExempt[tn+"."+k.Name] {
+									fi.writes[lb] = true
+								}
+							}
+						}
+					}
+				}
+			}
+
+			return true
+		})
+	}
+	// 3. call graph flags (by short name)
+	isCtor := func(fi *fFuncInfo) bool {
+		return strings.HasPrefix(fi.short, "New") || strings.HasPrefix(fi.short, "new")
+	}
+	isEntry := func(fi *fFuncInfo) bool {
+		return ast.IsExported(fi.short) && !isCtor(fi) && fi.short != "AddRule" && fi.short != "TryAdd" &&
+			(fRecvType(fi.decl) == "" || ast.IsExported(fRecvType(fi.decl)) || true)
+	}
+	byShort := map[string][]*fFuncInfo{}
+	for _, fi := range funcs {
+		byShort[fi.short] = append(byShort[fi.short], fi)
+	}
+	onQuery := map[*fFuncInfo]bool{}
+	var work []*fFuncInfo
+	for _, fi := range funcs {
+		if isEntry(fi) {
+			onQuery[fi] = true
+			work = append(work, fi)
+		}
+	}
+	for len(work) > 0 {
+		fi := work[len(work)-1]
+		work = work[:len(work)-1]
+		for c := range fi.calls {
+			for _, g := range byShort[c] {
+				// the construction-time API is not followed from query code: a call of it there is reported
+				// as a write of the caller instead (see below)
+				if !onQuery[g] && !isCtor(g) && g.short != "AddRule" && g.short != "TryAdd" {
+					onQuery[g] = true
+					work = append(work, g)
+				}
+			}
+		}
+	}
+	callers := map[*fFuncInfo][]*fFuncInfo{}
+	for _, fi := range funcs {
+		for c := range fi.calls {
+			for _, g := range byShort[c] {
+				callers[g] = append(callers[g], fi)
+			}
+		}
+	}
+	ctor := map[*fFuncInfo]bool{}
+	for _, fi := range funcs {
+		if isCtor(fi) {
+			ctor[fi] = true
+		}
+	}
+	for changed := true; changed; {
+		changed = false
+		for _, fi := range funcs {
+			if ctor[fi] || len(callers[fi]) == 0 {
+				continue
+			}
+			all := true
+			for _, g := range callers[fi] {
+				if g != fi && !ctor[g] {
+					all = false
+				}
+			}
+			if all {
+				ctor[fi] = true
+				changed = true
+			}
+		}
+	}
+	flag := func(b bool, t string) string {
+		if b {
+			return t
+		}
+
+		return "-"
+	}
+	for _, fi := range funcs {
+		for lb := range fi.writes {
+			rows = append(rows, fWriterRow{fn: fi.name, field: lb, query: flag(onQuery[fi], "q"), ctor: flag(ctor[fi], "c")})
+		}
+		// query code calling the construction-time API writes the tables
+		if onQuery[fi] {
+			for c := range fi.calls {
+				if c == "AddRule" || c == "TryAdd" {
+					rows = append(rows, fWriterRow{fn: fi.name, field: "call:" + c, query: "q", ctor: flag(ctor[fi], "c")})
+				}
+			}
+		}
+	}
+	sort.Slice(rows, func(i, j int) bool {
+		if rows[i].fn != rows[j].fn {
+			return rows[i].fn < rows[j].fn
+		}
+
+		return rows[i].field < rows[j].field
+	})
+
+	return rows, typesFound, fieldsFound
+}
+
 func fFactsSection(p func(format string, a ...any)) {
 	repo := fRepoDir()
 	p("-- group F (C13): fields of rules.Request (reflect) and the fields definitely assigned when a pooled request is refilled")
@@ -454,4 +802,34 @@ func fFactsSection(p func(format string, a ...any)) {
 		p("  (%q, %q, %q, %q)%s", r.fn, r.field, r.rw, r.lock, sep)
 	}
 	p("]")
+	p("")
+	p("-- group J (C14): writers of the fields the model treats as immutable after construction:")
+	p("-- (function, field, on a query path q/-, constructor-only c/-); the frozen struct types found; all their fields")
+	wrows, types, fields := fFieldWriters(repo)
+	p("def fieldWriters : List (String × String × String × String) := [")
+	for i, r := range wrows {
+		sep := ","
+		if i == len(wrows)-1 {
+			sep = ""
+		}
+		p("  (%q, %q, %q, %q)%s", r.fn, r.field, r.query, r.ctor, sep)
+	}
+	p("]")
+	p("def frozenTypes : List String := %s", fLeanStrings(types))
+	// the frozen types at least one field of which is written by a constructor-only function
+	written := map[string]bool{}
+	for _, r := range wrows {
+		if r.ctor != "c" {
+			continue
+		}
+		owner := r.field
+		if i := strings.LastIndex(owner, "."); i >= 0 {
+			owner = owner[:i]
+		}
+		for _, t := range strings.Split(owner, "/") {
+			written[t] = true
+		}
+	}
+	p("def ctorWrittenTypes : List String := %s", fLeanStrings(fSortedKeys(written)))
+	p("def frozenFields : List String := %s", fLeanStrings(fields))
 }
